@@ -291,4 +291,39 @@ func (dht *IpfsDHT) GetValue(ctx context.Context, key string, opts ...routing.Op
   props C04
   modifies *
   ensures [found-or-error] imp(err == nil, result != nil)
+
+# ---- optimistic provide (C06, C03) -----------------------------------------------
+guarded_by optimisticState.peerStatesLk : optimisticState.peerStates
+
+func (dht *IpfsDHT) newOptimisticState(ctx context.Context, key string) (*optimisticState, error)
+  props C06
+  modifies nothing
+  ensures imp(result1 != nil, result0 == nil)
+  ensures imp(result1 == nil, result0 != nil && fresh(result0) && result0.peerStates != nil && len(result0.peerStates) == 0 && result0.dht == dht && result0.key == key && result0.putCtx == ctx && result0.doneChan != nil)
+
+func (dht *IpfsDHT) optimisticProvide(outerCtx context.Context, keyMH multihash.Multihash) error
+  props C06 C03
+  requires cfgOK(dht)
+  ghostvar $cancelled bool = false
+  ghostvar $lookupOK bool = false
+  modifies *
+  ensures [internal-puts-outlive-the-call] imp($lookupOK, !$cancelled)
+  loop over lookupRes.peers invariant es != nil && es.peerStates != nil && held(es.peerStatesLk)
+  loop over lookupRes.peers invariant [every-returned-peer-scheduled] all(j, 0, $key, has(es.peerStates, lookupRes.peers[j]))
+  ghost at call(putCtxCancel): $cancelled = true
+  ghost at call(runLookupWithFollowup): $lookupOK = ($ret1 == nil)
+  ghost at go(putProviderRecord): assert(!has(es.peerStates, $arg0) && $arg0 == p)
+
+func (os *optimisticState) putProviderRecord(pid peer.ID)
+  props C06 C03
+  ghostvar $addrs []ma.Multiaddr = nil
+  modifies *
+  ensures [one-completion-signal] tagged("sent:os.doneChan")
+  ghost at call(FilteredAddrs): $addrs = $ret0
+  ghost at before call(PutProviderAddrs): assert($arg1 == pid && str($arg2) == os.key && $arg3.ID == os.dht.self && $arg3.Addrs == $addrs)
+
+func (os *optimisticState) waitForRPCs()
+  props C03
+  modifies *
+  loop 0 invariant [a-completion-is-owed] rpcCount >= 1
 @*/
